@@ -521,3 +521,5 @@ def check(run, prog):
     rule_literal_termination(run, prog)      # R-11.7
     from .c11_termination import rule_long_constants
     rule_long_constants(run, prog)           # R-11.8
+    from .c11_termination import rule_literal_context
+    rule_literal_context(run, prog)          # R-11.9
